@@ -81,6 +81,24 @@ CLAIMS = {
   note="Assumed: x/text charmap decoders implement the named code pages byte for byte and are streaming homomorphisms; go-corelib StripBOM removes exactly one leading U+FEFF; everything the statement says about byte values lies in those assumptions. The JSON-schema enum that makes 'anything else' unreachable is not used.",
   technique="contract-based deductive verification with symbolic package initialisation, SMT; SSA frame obligation",
   design_ref="§6 C18"),
+ "C05": dict(
+  category="proof",
+  text="Partial, per-function: the explicit-stack matcher steps of the flat-file HierarchyReader (readRec, stackTop, shrinkStack, growStack, recNext, recDone, Read) and of the EDI reader (SegDecl.minOccurs/maxOccurs, stackTop, shrinkStack, segNext, segDone) are proved, for all stacks and declarations, to: fail with the fatal error class exactly when an instance count is below the declared minimum at the point the matcher leaves a declaration (minErr), never return a continuable error for a structural failure (class), pop exactly one frame or keep the stack (shrinks/keeps), count an instance once (counted) and keep the node-tree invariant. HierarchyReader.Read returns a node iff no error, and io.EOF only from the branch where the record reader reports no more unprocessed data with an empty stack (eof).",
+  note="NOT decided by this check: agreement of the whole state machine with the declarative greedy-matcher semantics over all hierarchies and unit sequences (a whole-history refinement; the stack well-formedness invariant stackOK could not be carried through recNext/recDone within the solver budget and is not claimed), 'no unit consumed twice', and the EDI scanner's treatment of an unterminated trailing segment (finding F6, design round). Assumed: RecDecl/RecReader implementations meet their interface contracts.",
+  technique="contract-based deductive verification: per-step postconditions of the stack machine over go/ssa + SMT",
+  design_ref="§6 C05"),
+ "C06": dict(
+  category="proof",
+  text="Partial, csv2 path: ColumnDecl.lineToColumnValue returns exactly the field at the declared index of the line's record (empty when the row is shorter), lineMatch selects by line_index / line_pattern as declared, NewReader configures encoding/csv with the first rune of the declared delimiter and with record-slice reuse whose aliasing is then handled by readLine: readLine copies the decoder's reused record into the reader-owned buffer (copied: every buffered field equals the field the decoder returned for that line, for all earlier lines too: kept/keptLines) and popFrontLinesBuf keeps the buffer's index arithmetic consistent (startOf/bufOK invariants, loop invariant over the compaction loop).",
+  note="RFC-4180 splitting itself is encoding/csv's (assumed; ghost lastField/lastLen name its result). Not yet under contract: linesToNode / header-footer matching of csv2, fixedlength2 rune slicing, old csv and old fixed-length readers; their fidelity is NOT claimed by this check.",
+  technique="contract-based deductive verification: buffer representation invariant with quantified element heaps, loop invariants, SMT",
+  design_ref="§6 C06"),
+ "C16": dict(
+  category="proof",
+  text="Per-call proof on the JSON, XML and csv2 paths that a source failure is fatal in the call that hits it: ghost srcFails(d) counts non-EOF errors returned by the underlying decoder/reader; JSONStreamReader/XMLStreamReader.parse and Read, the json/xml format-reader wrappers, csv2 readLine / readAndMatchRowsBasedRecord / Read and HierarchyReader.Read each ensure 'srcFails grew ==> the returned error is non-nil, not io.EOF and of the reader's fatal class', the seven IsContinuableError classifiers are proved to reject exactly those classes, NewTransform wires the ingester whose IsContinuableError is consulted, and transform.Read latches a non-continuable error (C01).",
+  note="Not yet under contract (NOT claimed): fixedlength2, EDI, old csv and old fixed-length readers; 'results before the fault equal the fault-free run' is the paper corollary of determinism (C15) and is not machine-checked. Assumed: decoder contracts in specs/extern (encoding/json, encoding/xml, encoding/csv return the source's error or a syntax error; srcFails bookkeeping).",
+  technique="contract-based deductive verification with a ghost failure counter on the source, SMT",
+  design_ref="§6 C16"),
 }
 
 NOT_BUILT = "check not built yet in this session (planned, see DESIGN.md §6); not claimed until its obligations discharge on the unchanged tree"
